@@ -224,6 +224,9 @@ class SchemaGen(object):
         return names
 
     def input_type_expr(self, allow_nonnull=True, names=None, depth=0):
+        if depth == 0 and allow_nonnull and self.rng.random() < 0.03:
+            inner = named(self.rng.choice(names or self.input_type_names()))
+            return nn(lst(nn(lst(nn(lst(nn(inner)))))))
         r = self.rng.random()
         if depth < 2 and r < 0.25:
             t = lst(self.input_type_expr(True, names, depth + 1))
@@ -293,10 +296,16 @@ class SchemaGen(object):
         for _ in range(rng.randint(1, 1 + self.size)):
             e = s.add(SType("enum", self.fresh("Enum"), self.desc()))
             coded = self.chance(0.5)
-            for i in range(rng.randint(1, 4)):
+            n_values = rng.randint(1, 4)
+            # internal values that are the *names* of the neighbouring members (a python value must
+            # never be mistaken for a name)
+            crossed = coded and n_values >= 2 and self.chance(0.2)
+            for i in range(n_values):
                 nm = "%s_V%d" % (e.name.upper(), i)
                 val = UNSET
-                if coded:
+                if crossed:
+                    val = "%s_V%d" % (e.name.upper(), (i + 1) % n_values)
+                elif coded:
                     # python Enum members are internal values too (EnumType.from_python_enum)
                     val = rng.choice([i, (e.name, i), "internal_%d" % i, float(i) + 0.5, PY_ENUM_MEMBERS[i % len(PY_ENUM_MEMBERS)]])
                 e.values.append(SEnumValue(nm, val, self.desc(0.2), self.deprecation()))
@@ -379,6 +388,9 @@ class SchemaGen(object):
                 t = lst(t)
         if rng.random() < 0.3:
             t = nn(t)
+        if rng.random() < 0.04:
+            # seven wrappers: as deep as the standard introspection query's TypeRef fragment goes
+            t = nn(lst(nn(lst(nn(lst(nn(base)))))))
         args = []
         if rng.random() < 0.4:
             taken = set()
